@@ -110,15 +110,24 @@ class RawPayloadDecoder(AbstractSimplePayloadDecoder):
 
             return
 
+        component = noValue
+
         while True:
             for value in decodeFun(
                     substrate, asn1Spec, tagSet, length,
                     allowEoo=True, **options):
 
-                if value is eoo.endOfOctets:
-                    return
+                if isinstance(value, SubstrateUnderrunError):
+                    yield value
 
-                yield value
+            if value is eoo.endOfOctets:
+                break
+
+            component = value
+
+        # the decoded value must be the last thing yielded: hand it out only
+        # once the end-of-octets marker has been consumed
+        yield component
 
 
 rawPayloadDecoder = RawPayloadDecoder()
